@@ -419,6 +419,7 @@ impl<'a> Model<'a> {
                 let rs: Vec<Res> = then.iter().map(|o| self.guarded(o)).collect();
                 Res::Many(rs)
             }
+            Op::Pause => Res::Unit,
             Op::OnThreadExit { ops, .. } => {
                 // a thread that is ending is a thread like any other: the operations, twice, in order
                 let saved = self.cur_task;
